@@ -1,5 +1,6 @@
-(* C08, link of the path of [normalize 63 u] to the text-level specification [Normal.path_normal], for
-   URIs that are not relative-path references.  The one missing ingredient -- the walk of
+(* C08, link of the path of [normalize 63 u] to the text-level specification [Normal.path_normal] with the
+   "." guard [Normal.guard_path] (the two path-level ingredients of [Normal.normal_text]), for URIs that
+   are not relative-path references.  The one missing ingredient -- the walk of
    uriRemoveDotSegmentsEx without the relative rule computes RFC 3986 5.2.4 on the joined text -- belongs
    to C06 (Proofs/ResolveProofs.v); here it is the explicit hypothesis [rds_link] of [path_link]. *)
 From Coq Require Import List NArith Bool Lia ZifyBool ZifyN Arith.
@@ -104,19 +105,88 @@ Proof. destruct x as [|[|? ?] [|? ?]]; reflexivity. Qed.
 Definition rootless_ok (u : uri) : Prop :=
   absolutePath u = false -> is_host_set u = false -> match pathSegs u with [] :: _ => False | _ => True end.
 
+(* ---- the guard ---- *)
+Lemma rds_walk_Forall (P : text -> Prop) rel host abs : P [] -> forall rest kept,
+  Forall P kept -> Forall P rest -> Forall P (rds_walk rel host abs kept rest).
+Proof.
+  intros HP0.
+  assert (forall k, Forall P k -> Forall P (rev k)) as Hrev.
+  { intros k Hk. apply Forall_forall. intros x Hx. apply in_rev in Hx. rewrite Forall_forall in Hk. auto. }
+  induction rest as [|w nxt IH]; intros kept Hk Hr.
+  - cbn [rds_walk]. auto.
+  - inversion Hr as [|? ? Hw Hn]; subst. cbn [rds_walk].
+    destruct (seg_dot w).
+    + destruct (rel && _ && _); [apply IH; auto|].
+      destruct nxt as [|n1 n2]; [|apply IH; assumption].
+      destruct kept as [|p k]; [destruct host; repeat constructor; exact HP0|].
+      apply Hrev. constructor; [exact HP0|assumption].
+    + destruct (seg_dotdot w).
+      * destruct (rel && _); [apply IH; auto|].
+        destruct kept as [|p [|pp kk]].
+        -- destruct nxt as [|n1 n2]; [destruct abs; repeat constructor; exact HP0|apply IH; auto].
+        -- destruct nxt as [|n1 n2]; [destruct abs; repeat constructor; exact HP0|apply IH; auto].
+        -- inversion Hk as [|? ? _ Hk']; subst.
+           destruct nxt as [|n1 n2]; [apply Hrev; constructor; [exact HP0|assumption]|apply IH; assumption].
+      * apply IH; auto.
+Qed.
+
+Lemma no_slash_head c s : no_slash (c :: s) -> (c =? 47) = false /\ (47 =? c) = false.
+Proof. intros H. inversion H as [|? ? Hc _]. split; apply N.eqb_neq; congruence. Qed.
+
+Lemma join_head (c : N) (s : text) (l : list text) : exists tl', Normal.join_slash (@cons text (c :: s) l) = c :: tl'.
+Proof. destruct l; eexists; reflexivity. Qed.
+
+(* behind the root: the text "/" ++ join w begins with "//" iff the first segment is empty and another follows *)
+Lemma dslash_rooted w : Forall no_slash w ->
+  Resolve.starts_with [47; 47] (47 :: Normal.join_slash w) = match w with [] :: _ :: _ => true | _ => false end.
+Proof.
+  intros H. destruct w as [|[|c s] l].
+  - reflexivity.
+  - destruct l; reflexivity.
+  - inversion H as [|? ? Hc _]. destruct (no_slash_head _ _ Hc) as [Hc1 Hc2].
+    destruct (join_head c s l) as [tl' E]. rewrite E. cbn [Resolve.starts_with]. rewrite Hc2.
+    rewrite andb_false_r. reflexivity.
+Qed.
+
+(* rootless: the text join w begins with "//" or is "/" iff the first two segments are empty *)
+Lemma dslash_rootless w : Forall no_slash w ->
+  Resolve.starts_with [47; 47] (Normal.join_slash w) || Resolve.text_eqb (Normal.join_slash w) [47]
+  = match w with [] :: [] :: _ => true | _ => false end.
+Proof.
+  intros H. destruct w as [|[|c s] l].
+  - reflexivity.
+  - destruct l as [|[|d t] r].
+    + reflexivity.
+    + destruct r; reflexivity.
+    + inversion H as [|? ? _ H2]. inversion H2 as [|? ? Hd _]. destruct (no_slash_head _ _ Hd) as [Hd1 Hd2].
+      change (Normal.join_slash ([] :: (d :: t) :: r)) with (47 :: Normal.join_slash (@cons text (d :: t) r)).
+      destruct (join_head d t r) as [tl' E]. rewrite E. cbn [Resolve.starts_with Resolve.text_eqb].
+      rewrite Hd2. rewrite !andb_false_r. reflexivity.
+  - inversion H as [|? ? Hc _]. destruct (no_slash_head _ _ Hc) as [Hc1 Hc2].
+    destruct (join_head c s l) as [tl' E]. rewrite E. cbn [Resolve.starts_with Resolve.text_eqb].
+    rewrite Hc1, Hc2. reflexivity.
+Qed.
+
+Lemma guard_segs_host w : guard_segs true false w = w.
+Proof. destruct w as [|[|? ?] [|[|? ?] ?]]; reflexivity. Qed.
+
 (* ---- the link ---- *)
 Definition is_nil (l : list text) : bool := match l with [] => true | _ => false end.
 
+(* the engine's path equals the specification's normal form of the path text, including the "." segment in
+   front of a host-less path that would be written with "//" in front (Normal.guard_path) *)
 Lemma path_link_core (Hlink : rds_link) (has_scheme host abs : bool) (segs : list text) :
   forallb pct_wf segs = true -> Forall no_slash segs ->
   (abs = false -> host = false -> match segs with [] :: _ => False | _ => True end) ->
+  (host = true -> abs = false) ->
   negb has_scheme && negb abs && negb host = false ->
   (if abs || (negb (is_nil (norm_segs_of false host abs segs)) && host) then [47] else [])
     ++ Normal.join_slash (norm_segs_of false host abs segs)
-  = Normal.path_normal has_scheme host
-      ((if abs || (negb (is_nil segs) && host) then [47] else []) ++ Normal.join_slash segs).
+  = Normal.guard_path (negb abs && negb host && negb (is_nil segs)) host
+      (Normal.path_normal has_scheme host
+         ((if abs || (negb (is_nil segs) && host) then [47] else []) ++ Normal.join_slash segs)).
 Proof.
-  intros Hwf Hns Hroot Hrel.
+  intros Hwf Hns Hroot Hha Hrel.
   unfold norm_segs_of. cbv zeta.
   remember (map fix_pct segs) as segs' eqn:Hsegs'.
   assert (map (Normal.pct_norm false) segs = segs') as Hmap.
@@ -144,35 +214,38 @@ Proof.
       + cbn [app]. rewrite split_join by assumption. rewrite Hmap. reflexivity. }
   unfold Normal.path_normal. rewrite Hp. clear Hp.
   destruct segs as [|s0 sr].
-  - (* no segments: nothing to normalize *)
-    subst segs'. cbn [map is_nil negb andb Normal.join_slash]. rewrite orb_false_r, app_nil_r.
+  - (* no segments: nothing to normalize, nothing to guard *)
+    subst segs'. cbn [map is_nil negb andb Normal.join_slash]. rewrite !andb_false_r, orb_false_r, app_nil_r.
+    assert (guard_segs host abs [] = []) as Eg by (destruct abs; reflexivity). rewrite Eg.
     assert ((if negb host then @nil text else []) = []) as E0 by (destruct host; reflexivity).
     rewrite E0. cbn [is_nil negb andb Normal.join_slash]. rewrite orb_false_r, app_nil_r.
-    destruct abs; reflexivity.
+    destruct abs, host; reflexivity.
   - assert (segs' <> []) as Hne' by (subst segs'; discriminate).
     assert (match segs' with [] => [] | _ :: _ => rds_walk false host abs [] segs' end
             = rds_walk false host abs [] segs') as Hm by (destruct segs'; [contradiction|reflexivity]).
     rewrite Hm.
     pose proof (Hlink host abs segs' Hne' Hns') as HL.
+    assert (Forall no_slash (rds_walk false host abs [] segs')) as Hnw
+      by (apply rds_walk_Forall; [constructor|constructor|exact Hns']).
     remember (rds_walk false host abs [] segs') as w eqn:Hw.
-    match goal with |- context [Normal.join_slash ?x] =>
-      match x with context [negb host] =>
-        assert (Normal.join_slash x = Normal.join_slash w) as Hj
-          by (destruct (negb host); [apply join_drop_lone|reflexivity])
-      end
-    end.
-    rewrite Hj. cbn [is_nil negb andb]. destruct (abs || host) eqn:Eah.
+    cbn [is_nil negb andb]. rewrite andb_true_r. destruct (abs || host) eqn:Eah.
     + (* rooted *)
       change ([47] ++ Normal.join_slash segs') with (47 :: Normal.join_slash segs').
       cbn [head_is]. rewrite N.eqb_refl. rewrite <- HL.
-      assert (abs || (negb (is_nil (if negb host then match w with [[]] => [] | _ => w end else w)) && host) = true) as Hpre.
-      { destruct abs; [reflexivity|]. cbn [orb] in Eah |- *. subst host. cbn [negb]. rewrite andb_true_r.
+      assert (negb abs && negb host = false) as Erl by (destruct abs, host; try reflexivity; discriminate Eah).
+      rewrite Erl. unfold Normal.guard_path.
+      destruct host.
+      * (* behind an authority: no guard on either side *)
+        rewrite (Hha eq_refl) in *. rewrite guard_segs_host. cbn [negb orb andb].
+        rewrite andb_true_r.
         pose proof (rds_walk_nonempty segs' [] (or_intror Hne')) as Hwne. rewrite <- Hw in Hwne.
-        destruct w; [contradiction|reflexivity]. }
-      rewrite Hpre. reflexivity.
+        destruct w; [contradiction|reflexivity].
+      * (* host-less absolute path *)
+        rewrite orb_false_r in Eah. rewrite Eah in *. cbn [negb orb]. rewrite (dslash_rooted w Hnw).
+        destruct w as [|[|c s] [|x r]]; reflexivity.
     + (* rootless: a scheme, no host *)
       apply orb_false_elim in Eah. destruct Eah as [Ea Eh]. subst abs host.
-      rewrite andb_false_r. cbn [app orb negb andb].
+      cbn [app orb negb andb].
       assert (has_scheme = true) as Hsch by (destruct has_scheme; [reflexivity|discriminate Hrel]).
       rewrite Hsch. cbn [orb].
       (* the text begins with a character other than '/' *)
@@ -189,23 +262,39 @@ Proof.
       assert (exists tl', Normal.join_slash segs' = d :: tl') as [tl' Ejoin].
       { rewrite Es'. destruct rest; [exists dr; reflexivity|]. eexists. cbn [Normal.join_slash app]. reflexivity. }
       rewrite Ejoin. cbn [head_is]. apply N.eqb_neq in Hd. rewrite Hd.
-      unfold Resolve.rds_keep_kind. cbn [head_is]. rewrite Hd. rewrite <- Ejoin, <- HL. reflexivity.
+      unfold Resolve.rds_keep_kind. cbn [head_is]. rewrite Hd. rewrite <- Ejoin, <- HL. cbn [tl].
+      unfold Normal.guard_path. rewrite (dslash_rootless w Hnw).
+      destruct w as [|[|c s] [|[|e t] r]]; reflexivity.
 Qed.
 
 Lemma path_link (Hlink : rds_link) u :
   forallb pct_wf (pathSegs u) = true -> Forall no_slash (pathSegs u) -> rootless_ok u ->
+  (is_host_set u = true -> absolutePath u = false) ->
   relative_ref u = false ->
-  path_text (normalize 63 u) = Normal.path_normal (is_some (scheme u)) (is_host_set u) (path_text u).
+  path_text (normalize 63 u)
+  = Normal.guard_path (Normal.is_rootless (path_text u)) (is_host_set u)
+      (Normal.path_normal (is_some (scheme u)) (is_host_set u) (path_text u)).
 Proof.
-  intros Hwf Hns Hroot Hrel.
+  intros Hwf Hns Hroot Hha Hrel.
   assert (is_host_set (normalize 63 u) = is_host_set u) as Hhost.
   { rewrite (normalize_fields 63 u ltac:(discriminate)). unfold is_host_set at 1.
     cbn [hostText ip4 ip6 ipFuture]. change (bit 63 M_HOST) with true. cbv iota. apply norm_host_is_some. }
+  assert (Normal.is_rootless (path_text u)
+          = negb (absolutePath u) && negb (is_host_set u) && negb (is_nil (pathSegs u))) as Hrl.
+  { unfold path_text, Normal.is_rootless. specialize (Hroot).
+    destruct (absolutePath u) eqn:Ea; [reflexivity|]. cbn [orb negb andb].
+    destruct (pathSegs u) as [|s0 sr] eqn:Es; [cbn; rewrite andb_false_r; reflexivity|].
+    cbn [negb andb is_nil]. destruct (is_host_set u) eqn:Eh; [reflexivity|]. cbn [app negb andb].
+    specialize (Hroot Ea Eh). rewrite Es in Hroot. destruct s0 as [|c0 cr]; [contradiction|].
+    inversion Hns as [|? ? Hc _]. 
+    destruct (join_head c0 cr sr) as [tl' E].
+    rewrite E. cbn [head_is]. destruct (no_slash_head _ _ Hc) as [Hc1 Hc2]; rewrite ?Hc1, ?Hc2; reflexivity. }
+  rewrite Hrl.
   unfold path_text. rewrite Hhost.
   rewrite (normalize_fields 63 u ltac:(discriminate)). cbn [pathSegs absolutePath].
   change (bit 63 M_PATH) with true. cbv iota.
   unfold norm_segs. rewrite Hrel.
-  exact (path_link_core Hlink (is_some (scheme u)) (is_host_set u) (absolutePath u) (pathSegs u) Hwf Hns Hroot Hrel).
+  exact (path_link_core Hlink (is_some (scheme u)) (is_host_set u) (absolutePath u) (pathSegs u) Hwf Hns Hroot Hha Hrel).
 Qed.
 
 Print Assumptions path_link.
